@@ -183,9 +183,11 @@ def fmt_model(names, rec):
 import multiprocessing as mp, traceback as _tb, os as _os
 
 _WORLD = {}
+FEATURES = None          # None: all protocols + batteries_included; otherwise the feature set whose MIR is to be executed (C20)
 def world(overflow_checks=True):
-    if overflow_checks not in _WORLD: _WORLD[overflow_checks] = World(overflow_checks=overflow_checks)
-    return _WORLD[overflow_checks]
+    key = (overflow_checks, FEATURES)
+    if key not in _WORLD: _WORLD[key] = World(overflow_checks=overflow_checks, features=FEATURES)
+    return _WORLD[key]
 
 
 def _job_entry(args):
@@ -201,9 +203,9 @@ def _job_entry(args):
     return d
 
 
-def run_jobs(ses, jobs, procs=None):
+def run_jobs(ses, jobs, procs=None, preload=True):
     """jobs: list of (function(ses, *args), args).  The MIR is parsed before forking."""
-    world()
+    if preload: world()
     procs = procs or min(len(jobs), max(1, (_os.cpu_count() or 4) // 2))
     ctx = mp.get_context('fork')
     with ctx.Pool(procs) as pool:
